@@ -27,6 +27,10 @@ def wire_val(v):
     return rs(F(v))
 
 
+def cell(v):
+    return F(SENT) if v is None or (isinstance(v, float) and math.isnan(v)) else F(v)
+
+
 def rank_map(ids):
     return {v: j for j, v in enumerate(sorted(set(ids), key=lambda z: (str(type(z)), z)))}
 
@@ -45,7 +49,7 @@ def gen_table(rng, i):
     n = len(variant)
     cols = {"variant": variant,
             "x": [rng.randint(-9, 9) for _ in range(n)],                    # int column, duplicates likely
-            "y": [rng.randint(0, 3) / 2 for _ in range(n)],                 # float column
+            "y": [None if rng.random() < 0.15 else rng.randint(0, 3) / 2 for _ in range(n)],   # float column with nulls
             "z": [float(rng.randint(0, 99)) for _ in range(n)],
             "w": [rng.randint(0, 1) for _ in range(n)]}
     return idkind, ids, cols
@@ -98,9 +102,8 @@ def partition(chk: Check, n, kinds):
                 if list(table.column_names) != list(sel):
                     chk.fail("a part does not hold exactly the declared columns", dict(input=inp, got=table.column_names))
                     break
-                got = [tuple(F(wire_val(x)) if wire_val(x) != str(SENT) else F(SENT) for x in row)
-                       for row in zip(*[table[c].to_pylist() for c in sel])] if sel else []
-                src = [tuple(F(cols[c][j]) for c in sel) for j in range(len(cols["variant"]))
+                got = [tuple(cell(x) for x in row) for row in zip(*[table[c].to_pylist() for c in sel])] if sel else []
+                src = [tuple(cell(cols[c][j]) for c in sel) for j in range(len(cols["variant"]))
                        if cols["variant"][j] == v and type(cols["variant"][j]) is type(v)]
                 m = model[rk[v]]
                 if (got != src) if ordered else (sorted(got) != sorted(src)):
